@@ -40,6 +40,7 @@ type RunOutput struct {
 	SolverMs    int64               `json:"solver_ms"`
 	WallS       float64             `json:"wall_s"`
 	ConstTables map[string][]string `json:"const_tables"`
+	FamilyChecks []string `json:"family_checks"`
 }
 
 func main() {
@@ -167,6 +168,7 @@ func runVerify(o *runOpts) (*RunOutput, error) {
 		c = x.contractFor(f)
 		x.Verify(f, c)
 		out.Paths[k] = x.pathCount
+		out.FamilyChecks = append(out.FamilyChecks, x.verifyFamilyMembership(f)...)
 	}
 	var scanRes []*ObResult
 	if o.scan != nil {
@@ -307,7 +309,7 @@ func runVerify(o *runOpts) (*RunOutput, error) {
 					mu.Lock()
 					q.Text = q.SMT()
 					mu.Unlock()
-					sr := Solve(&q, o.work, o.timeout, o.seed, false)
+					sr := solve(&q, o.work, o.timeout, o.seed, false, true)
 					mu.Lock()
 					r := results[n]
 					r.Ms += sr.Ms
@@ -350,6 +352,16 @@ func truncate(s string, n int) string {
 // effectiveContract merges family contracts and default contracts into a function's own.
 func (x *Exec) effectiveContract(fn *ssa.Function, c *FuncContract) *FuncContract {
 	fams := x.familiesOf(fn)
+	var plainFams []*FuncContract
+	for _, m := range x.funcFamilyMembers()[fn] {
+		if m.wrapper == nil {
+			var params []string
+			for _, p := range fn.Params {
+				params = append(params, p.Name())
+			}
+			plainFams = append(plainFams, familyContractFor(m.fam, funcKey(fn), funcKey(fn), "0", params))
+		}
+	}
 	var def *FuncContract
 	if fn.Signature.Recv() != nil {
 		parts := strings.Split(funcKey(fn), ".")
@@ -360,7 +372,7 @@ func (x *Exec) effectiveContract(fn *ssa.Function, c *FuncContract) *FuncContrac
 	if c != nil && c.NoDefault {
 		def = nil
 	}
-	if len(fams) == 0 && def == nil {
+	if len(fams) == 0 && def == nil && len(plainFams) == 0 {
 		return c
 	}
 	m := &FuncContract{Key: funcKey(fn), Loops: map[int]*LoopSpec{}, Calls: map[string][]Clause{}, CallUses: map[string][]Clause{}}
@@ -368,7 +380,7 @@ func (x *Exec) effectiveContract(fn *ssa.Function, c *FuncContract) *FuncContrac
 		cp := *c
 		m = &cp
 	} else {
-		m.Pkg = fn.Pkg.Pkg.Name()
+		m.Pkg = fnPkg(fn).Name()
 	}
 	recv := ""
 	if len(fn.Params) > 0 {
@@ -410,6 +422,15 @@ func (x *Exec) effectiveContract(fn *ssa.Function, c *FuncContract) *FuncContrac
 		if fam.HasMod && !m.HasMod {
 			m.HasMod = true
 			m.Modifies = append(m.Modifies, fam.Modifies...)
+		}
+	}
+	for _, pf := range plainFams {
+		m.Requires = append(m.Requires, pf.Requires...)
+		m.Ensures = append(m.Ensures, pf.Ensures...)
+		m.Goals = append(m.Goals, pf.Goals...)
+		if pf.HasMod && !m.HasMod {
+			m.HasMod = true
+			m.Modifies = append(m.Modifies, pf.Modifies...)
 		}
 	}
 	if def != nil && (c == nil || !c.Inline) {
